@@ -54,3 +54,32 @@ func IndexRight(bm uint64) int {
 	}
 	return n + int(idx[0])
 }
+
+func child16(words []uint64, i int32) uint64 {
+	w := words[i>>2] >> (uint(i&3) * 16) & 0xffff
+	return w << 1
+}
+
+// PopWrong collects the set bits of a 17-bit value into a 16-element array.
+func PopWrong(words []uint64, i int32) []int32 {
+	bm := child16(words, i) | 1
+	var idx [16]int32
+	n := 0
+	for ; bm != 0; bm &= bm - 1 {
+		idx[n] = int32(bm & 0xff)
+		n++
+	}
+	return append([]int32(nil), idx[:n]...)
+}
+
+// PopRight has room for all 17 bits.
+func PopRight(words []uint64, i int32) []int32 {
+	bm := child16(words, i) | 1
+	var idx [17]int32
+	n := 0
+	for ; bm != 0; bm &= bm - 1 {
+		idx[n] = int32(bm & 0xff)
+		n++
+	}
+	return append([]int32(nil), idx[:n]...)
+}
